@@ -331,6 +331,19 @@ func main() {
 			}
 			os.RemoveAll(dir2)
 		}
+		// the same two paths, other content: an attestor built now trusts what the files hold now
+		var swappedAtt *yubiattest.Attestor
+		if dir3, derr := os.MkdirTemp("", "roots3"); derr == nil {
+			defer os.RemoveAll(dir3)
+			piv, u2fp := filepath.Join(dir3, "piv.pem"), filepath.Join(dir3, "u2f.pem")
+			for _, der := range [][]byte{p.other.Raw, p.rootDER} { // first the OTHER CA, then the real root
+				os.WriteFile(piv, pem.EncodeToMemory(&pem.Block{Type: "CERTIFICATE", Bytes: der}), 0o600)
+				os.WriteFile(u2fp, pem.EncodeToMemory(&pem.Block{Type: "CERTIFICATE", Bytes: der}), 0o600)
+				if a, aerr := yubiattest.NewAttestor(piv, u2fp); aerr == nil {
+					swappedAtt = a
+				}
+			}
+		}
 		rootsHex := hex.EncodeToString(p.rootDER)
 
 		sizes := []int{1024, 1031, 2048}
@@ -442,6 +455,21 @@ func main() {
 					ac.HostTrust = hex.EncodeToString(p.other.Raw)
 				}
 				runCase(r, c, att, f9, ac, sig, tbs)
+				if swappedAtt != nil && (strings.HasPrefix(ac.What, "chain-other-ca:") || strings.HasPrefix(ac.What, "chain-root-issued:")) {
+					// an attestor built from paths whose files held another CA when an EARLIER attestor was built from them
+					r.Eval(1)
+					attest := &x509.Certificate{SignatureAlgorithm: x509.SignatureAlgorithm(ac.Alg), RawTBSCertificate: tbs, Signature: sig}
+					if ac.NotBefore != 0 {
+						attest.NotBefore, attest.NotAfter = time.Unix(ac.NotBefore, 0), time.Unix(ac.NotAfter, 0)
+					}
+					var err error
+					if !r.Guard(c, "Attest", ac.What, func() { err = swappedAtt.Attest(f9, attest) }) {
+						if (err == nil) != (ac.Expect == "accept") {
+							sigp := map[bool]string{true: "rejects-valid:", false: "accepts-invalid:"}[ac.Expect == "accept"]
+							r.Violation(c, sigp+ac.What+":root-files-rewritten-before-construction", fmt.Sprintf("the root files held another CA when an earlier attestor was built from the same paths; this attestor was built after they were rewritten: err=%v", err), ac)
+						}
+					}
+				}
 				if goneAtt != nil && ac.Expect == "reject" && strings.HasPrefix(ac.What, "chain-") {
 					// whatever became of its files, it does not start accepting what the configured roots do not cover
 					ac2 := ac
